@@ -55,6 +55,7 @@ def _case(draw, n_min=1, n_max=4, near_copies=False):
     if near_copies:
         m["near_copies"] = True
     m["share_callables"] = draw(st.booleans())
+    m["api_container"] = draw(st.sampled_from(["list", "list", "tuple", "iterator", "generator"]))
     m["int_zero"] = draw(st.integers(0, 2)) == 0      # Python callables returning the int 0 where they vanish
     if m["share_callables"] and not route.startswith(("potable", "main")) and m["embed"] and m["density"] and draw(st.booleans()):
         # the same definition as embedding function of one element and density of another
@@ -281,7 +282,9 @@ def check_case(m):
         elif route.startswith("potable"):
             out = libroute.write_text(libroute.read_text(ctx))
         else:
-            pairs, eams = eamtab.api_objects(m, share=bool(m.get("share_callables")), int_zero=bool(m.get("int_zero")))
+            pairs, eams = eamtab.api_objects(m, share=bool(m.get("share_callables")), int_zero=bool(m.get("int_zero")),
+                                             container=m.get("api_container"))
+            cls.append("pair_potentials_as:" + (m.get("api_container") or "list"))
             if m.get("share_callables"):
                 cls.append("shared_callables")
             if m.get("int_zero"):
